@@ -473,6 +473,40 @@ Section Rank.
     destruct o; cbn [grow_op5] in Ho; try contradiction.
     - (* PNew *) cbn [step1] in H. destruct (lookup (w_props w) p) eqn:Hp; [discriminate H|]. inversion H; subst w'.
       exists (bump rk p M), (S M). apply RANKED_new_prop; assumption.
+    - (* PDel: a property that no live binding reads *)
+      destruct (PropGrowMore.del_shape fn rtl fuel w p w' Hinv Hna (PropGrowMore.no_reader_sound w p Ho) H) as (pr & Hp & Pw & Gw & _ & _ & Hevs).
+      assert (Pv : pview w p = Some (psigs_of pr)) by (unfold pview; rewrite Hp; reflexivity).
+      assert (K3' : forall y, lookup (w_props w') y <> None -> rk y < M).
+      { intros y Hy. apply K3. rewrite Pw in Hy. destruct (Nat.eq_dec y p) as [->|Hne]; [rewrite lookup_remove_same in Hy; contradiction|].
+        rewrite lookup_remove_other in Hy by exact Hne. exact Hy. }
+      destruct (pr_updater pr) as [b|] eqn:Hu.
+      + destruct (pi_upd _ _ _ _ _ _ _ Hinv p _ b Pv Hu (fun z => z)) as (ls & Ebv).
+        unfold bview in Ebv. destruct (get_bind w b) as [x|] eqn:Hb; [|discriminate Ebv].
+        destruct Hevs as (w1 & E1 & G1 & Ev & Gb).
+        destruct (destroy_binding w1 b) as [w2 e2] eqn:Hd. cbn [fst] in Ev, Gb.
+        destruct (PropGrowLazyMore.destroy_shape w1 b x w2 e2 G1 Hd) as (Ev2 & _ & Gn). rewrite E1 in Ev2.
+        assert (B2 : forall c, bview w' c = if Nat.eqb c b then None else bview w c).
+        { intros c. unfold bview. destruct (Nat.eqb_spec c b) as [->|Hne]; [rewrite Gb, Gn; reflexivity|rewrite Gw by congruence; reflexivity]. }
+        exists rk, M. split; [|split; [|exact K3']].
+        * intros c ls0 q lf y Hc. rewrite B2 in Hc. destruct (Nat.eqb c b); [discriminate Hc|exact (K1 c ls0 q lf y Hc)].
+        * intros id st Hst. rewrite Ev, Ev2 in Hst.
+          assert (Keep : forall id' st' rb, nth_error (w_evps w) id' = Some st' -> In rb (ep_registry st') ->
+                    (id' <> b_evp x \/ fst rb <> b_regid x) -> bview w' (snd rb) = bview w (snd rb)).
+          { intros id' st' [rid c] Hs Hi Hor. cbn [snd fst] in *. rewrite B2. destruct (Nat.eqb_spec c b) as [->|]; [|reflexivity]. exfalso.
+            pose proof (HR id' st' rid b Hs Hi) as Hk. unfold PropReg.bkey in Hk. rewrite Hb in Hk. inversion Hk; subst. destruct Hor as [Ho'|Ho']; apply Ho'; reflexivity. }
+          destruct (nth_error (w_evps w) (b_evp x)) as [ep0|] eqn:He0.
+          -- destruct (Nat.eq_dec (b_evp x) id) as [<-|Hne].
+             ++ rewrite nth_upd_same in Hst by (apply nth_error_Some; congruence). inversion Hst; subst st. cbn [ep_registry].
+                apply (rord_filter rk w w'); [|exact (K2 _ ep0 He0)].
+                intros rb Hi Hf. apply (Keep (b_evp x) ep0 rb He0 Hi). right. cbn in Hf. destruct (Nat.eqb_spec (fst rb) (b_regid x)); [discriminate Hf|assumption].
+             ++ rewrite nth_upd_other in Hst by exact Hne. apply (rord_transfer rk rk w w' _ 0); [|exact (K2 id st Hst)].
+                intros rb Hi. split; [apply (Keep id st rb Hst Hi); left; auto|auto].
+          -- apply (rord_transfer rk rk w w' _ 0); [|exact (K2 id st Hst)].
+             intros rb Hi. split; [|auto]. destruct (Nat.eq_dec id (b_evp x)) as [->|Hne]; [congruence|apply (Keep id st rb Hst Hi); left; exact Hne].
+      + exists rk, M. split; [|split; [|exact K3']].
+        * intros c ls0 q lf y Hc. unfold bview in Hc. rewrite Gw in Hc by discriminate. exact (K1 c ls0 q lf y Hc).
+        * intros id st Hst. rewrite Hevs in Hst. apply (rord_transfer rk rk w w' _ 0); [|exact (K2 id st Hst)].
+          intros rb _. split; [unfold bview; rewrite Gw by discriminate; reflexivity|auto].
     - (* PSet *) cbn [step1] in H. destruct (lookup (w_props w) p) as [pr|]; [|discriminate H]. destruct (pr_updater pr); [discriminate H|].
       destruct (set_helper_frame fn rtl rk fuel 0 0 w p v w' Hna Hinv K1 (Nat.le_0_l _) (Nat.le_0_l _) H) as (V & _ & _ & _ & Ev).
       exists rk, M. exact (RANKED_views rk M w w' V Ev HRK).
@@ -487,6 +521,16 @@ Section Rank.
       + cbn [set_obs w_evps]. exact (se_evps _ _ _ _ _ _ E).
       + intros y Hy Hn. cbn [set_obs w_props] in Hy. pose proof (proj2 (se_pdom _ _ _ _ _ _ E y)) as D. unfold pview in D. rewrite Hn in D. specialize (D eq_refl).
         destruct (lookup (w_props w1) y); [discriminate D|contradiction].
+    - (* PUnobserve *) cbn [step1] in H. destruct (lookup (w_obs w) h) as [hd|]; [|discriminate H].
+      destruct (unsubscribe_cases w hd w' None H (pi_dead _ _ _ _ _ _ _ Hinv)) as [[_ E]|[(-> & _)|(_ & s0 & E)]]; [discriminate E|exists rk, M; exact HRK|].
+      exists rk, M. apply (RANKED_same rk M w); [| | |exact HRK].
+      + intros b. unfold bview, get_bind. rewrite (re_binds _ _ _ _ _ _ E). reflexivity.
+      + exact (re_evps _ _ _ _ _ _ E).
+      + intros y. rewrite (re_props _ _ _ _ _ _ E). auto.
+    - (* PAssignFrom *) cbn [step1] in H. destruct (lookup (w_props w) p) as [pr|]; [|discriminate H]. destruct (lookup (w_props w) q) as [qr|]; [|discriminate H].
+      destruct (pr_updater pr); [discriminate H|].
+      destruct (set_helper_frame fn rtl rk fuel 0 0 w p (pr_value qr) w' Hna Hinv K1 (Nat.le_0_l _) (Nat.le_0_l _) H) as (V & _ & _ & _ & Ev).
+      exists rk, M. exact (RANKED_views rk M w w' V Ev HRK).
     - (* PBind *) destruct Ho as (Hp & Hmode). exists (bump rk p M), (S M). exact (RANKED_bind_fresh rk M fuel w p e m w' HML HNE HR HRK Hp Hmode H).
     - (* PReset *) cbn [step1] in H. destruct (lookup (w_props w) p) as [pr|] eqn:Hp; [|discriminate H].
       destruct (pr_updater pr) as [b|] eqn:Hu; [|inversion H; subst w'; exists rk, M; exact HRK].
